@@ -256,6 +256,16 @@ static std::string loopOp(const mj::Value &g) {
         const int bad = (c0 < 0) || (c0 >= W) || (c1 < 0) || (c1 >= W) || (c2 < 0) || (c2 >= W) || (c3 < 0) || (c3 >= W);
         const int idx = bad ? ncell : (((c0 * W + c1) * W + c2) * W + c3);
         OKL("@atomic"); cnt[idx] += 1; }));
+    else if (no == 2 && ni == 3) fl.outer(O[0], O[1]).inner(I[0], I[1], I[2]).run(OCCA_FUNCTION(sc, [=](const int2 o, const int3 i) -> void {
+        const int c0 = o.x - lo; const int c1 = o.y - lo; const int c2 = i.x - lo; const int c3 = i.y - lo; const int c4 = i.z - lo;
+        const int bad = (c0 < 0) || (c0 >= W) || (c1 < 0) || (c1 >= W) || (c2 < 0) || (c2 >= W) || (c3 < 0) || (c3 >= W) || (c4 < 0) || (c4 >= W);
+        const int idx = bad ? ncell : ((((c0 * W + c1) * W + c2) * W + c3) * W + c4);
+        OKL("@atomic"); cnt[idx] += 1; }));
+    else if (no == 3 && ni == 2) fl.outer(O[0], O[1], O[2]).inner(I[0], I[1]).run(OCCA_FUNCTION(sc, [=](const int3 o, const int2 i) -> void {
+        const int c0 = o.x - lo; const int c1 = o.y - lo; const int c2 = o.z - lo; const int c3 = i.x - lo; const int c4 = i.y - lo;
+        const int bad = (c0 < 0) || (c0 >= W) || (c1 < 0) || (c1 >= W) || (c2 < 0) || (c2 >= W) || (c3 < 0) || (c3 >= W) || (c4 < 0) || (c4 >= W);
+        const int idx = bad ? ncell : ((((c0 * W + c1) * W + c2) * W + c3) * W + c4);
+        OKL("@atomic"); cnt[idx] += 1; }));
     else if (no == 3 && ni == 1) fl.outer(O[0], O[1], O[2]).inner(I[0]).run(OCCA_FUNCTION(sc, [=](const int3 o, const int i) -> void {
         const int c0 = o.x - lo; const int c1 = o.y - lo; const int c2 = o.z - lo; const int c3 = i - lo;
         const int bad = (c0 < 0) || (c0 >= W) || (c1 < 0) || (c1 >= W) || (c2 < 0) || (c2 >= W) || (c3 < 0) || (c3 >= W);
